@@ -1,6 +1,7 @@
 package checks
 
 import (
+	"bytes"
 	"encoding/hex"
 	"runtime"
 	"sync"
@@ -10,6 +11,7 @@ import (
 	astits "github.com/asticode/go-astits"
 	"pgregory.net/rapid"
 
+	"verifharness/gen"
 	"verifharness/obs"
 	"verifharness/ref"
 )
@@ -193,6 +195,17 @@ func TestC10Split(t *testing.T) {
 		if r := astits.VerifComputeCRC32(full); r != 0 {
 			t.Fatalf("residue of %x||crc = %#08x", m, r)
 		}
+		// the checksum is a function of the bytes, not of the buffer: the same buffer refilled with another message of
+		// the same length (what a pooled reassembly buffer does) must give that message's checksum
+		if len(m) > 0 {
+			buf := append([]byte{}, m...)
+			_ = astits.VerifComputeCRC32(buf)
+			k := rapid.IntRange(0, len(buf)-1).Draw(t, "reusepos")
+			buf[k] ^= byte(1 + rapid.IntRange(0, 254).Draw(t, "reusexor"))
+			if got, w := astits.VerifComputeCRC32(buf), ref.CRC32MPEG2(buf); got != w {
+				t.Fatalf("compute on a refilled buffer %x = %#08x, reference %#08x (checksum of the previous content: %#08x)", buf, got, w, want)
+			}
+		}
 		h := obs.NewHasher()
 		h.Bytes(m)
 		rec.Case(h.Sum(), len(m) >= 2, func() interface{} {
@@ -202,5 +215,69 @@ func TestC10Split(t *testing.T) {
 		if len(m) > 1024 {
 			rec.Class("len>1024")
 		}
+	})
+}
+
+// TestC10Sections: the checksum as the section writer and reader use it.
+func TestC10Sections(t *testing.T) {
+	rec := obs.NewRecorder("C10", "sections", "rapid: the checksum where the library uses it: PAT/PMT sections of every size written by writePSIData must end with the bitwise CRC-32/MPEG-2 of the bytes before it (the writer feeds the checksum piecewise); sections of the six table types with arbitrary bodies of 0..1000 bytes and the reference CRC must be accepted by the Demuxer, and rejected when one CRC bit is flipped, including two sections of equal length in a row (pooled buffer reuse); non-trivial = section longer than 64 bytes; distinct by section bytes")
+	defer rec.Flush()
+	rapid.Check(t, func(t *rapid.T) {
+		// writer
+		kind := gen.Uniform(t, 2, "kind")
+		s := gen.Section(t, kind, gen.SectionOpts{MaxBody: rapid.IntRange(0, 1000).Draw(t, "maxbody")}, "s")
+		enc := s.Encode()
+		sec := &astits.PSISection{
+			Header: &astits.PSISectionHeader{PrivateBit: s.Private, SectionLength: uint16(len(enc) - 3), SectionSyntaxIndicator: true, TableID: astits.PSITableID(s.TableID)},
+			Syntax: &astits.PSISectionSyntax{
+				Header: &astits.PSISectionSyntaxHeader{CurrentNextIndicator: s.CurrentNext, LastSectionNumber: s.Last, SectionNumber: s.Number, TableIDExtension: s.Ext(), VersionNumber: s.Version},
+				Data:   &astits.PSISectionSyntaxData{PAT: s.PAT, PMT: s.PMT},
+			},
+		}
+		var out bytes.Buffer
+		if _, err := astits.VerifWritePSIData(&out, &astits.PSIData{Sections: []*astits.PSISection{sec}}); err != nil {
+			t.Fatalf("writePSIData: %v", err)
+		}
+		w := out.Bytes()
+		if len(w) < 5 || ref.CRC32MPEG2(w[1:]) != 0 {
+			t.Fatalf("section written by writePSIData (%d bytes) does not end with the CRC-32/MPEG-2 of its bytes: %x", len(w)-1, w)
+		}
+		// reader: arbitrary bodies, reference CRC; then the same with one CRC bit flipped; twice the same length in a row
+		tb := c03Tables[gen.Uniform(t, 10, "tbl")]
+		n := rapid.IntRange(0, 1000).Draw(t, "bodylen")
+		b1, b2 := gen.Bytes(t, n, "body1"), gen.Bytes(t, n, "body2")
+		for i, body := range [][]byte{b1, b2, b1} {
+			stream := fixedSectionStream(tb.id, tb.pid, body, tb.pmt)
+			res := demuxAll(stream)
+			for _, e := range res.errs {
+				if bytes.Contains([]byte(e.Error()), []byte("CRC32")) {
+					t.Fatalf("a section (table id %#x, body %d bytes, round %d) carrying the reference CRC is rejected: %v", tb.id, len(body), i, e)
+				}
+			}
+		}
+		if n > 0 {
+			stream := fixedSectionStream(tb.id, tb.pid, b1, tb.pmt)
+			// flip one bit of the CRC field of the last section: it sits right before the 0xFF padding of the last packet
+			last := len(stream) - 188
+			end := 188
+			for end > 4 && stream[last+end-1] == 0xff {
+				end--
+			}
+			if end >= 8 && tb.id != 0x70 && tb.id != 0x4a && tb.id != 0x72 {
+				stream[last+end-1-gen.Uniform(t, 4, "crcbyte")] ^= 1 << uint(gen.Uniform(t, 8, "crcbit"))
+				res := demuxAll(stream)
+				for _, it := range res.items {
+					if it.PID == tb.pid {
+						t.Fatalf("a section (table id %#x) whose CRC_32 has a flipped bit is delivered: %s", tb.id, obs.Trunc(obs.Canon(it), 300))
+					}
+				}
+			}
+		}
+		h := obs.NewHasher()
+		h.Bytes(enc)
+		h.Bytes(b1)
+		rec.Case(h.Sum(), len(enc) > 64, func() interface{} {
+			return map[string]interface{}{"written_section_bytes": len(enc), "read_table_id": tb.id, "read_body_bytes": n}
+		})
 	})
 }
